@@ -593,8 +593,10 @@ class Interp:
         except SimHang as e:
             self.fail('C09', 'hang', f'process({dt!r}): {e}')
         except Exception as e:
-            self.fail('C09', 'process_raised', f'process({dt!r}) raised '
-                      f'{type(e).__name__}: {e}')
+            # (C09: never fails because of bookkeeping; C08: the frame was
+            # cut short, nobody was advanced or woken)
+            self.fail(('C09', 'C08'), 'process_raised', f'process({dt!r}) '
+                      f'raised {type(e).__name__}: {e}')
         finally:
             self.in_frame = False
         # who should have advanced and did not
@@ -823,6 +825,20 @@ def generate(prop, run_seed, tier='quick', tolerate=frozenset()):
         return {'format': 1, 'engine': 'coro',
                 'config': {'in_world': False, 'coros': coros, 'churn': True},
                 'ops': ops, 'scripts': scripts}
+    if prop == 'C08' and crng.random() < .02:
+        # the clock changes its number family while nothing waits: Decimal
+        # frames and waits first, then - once everybody is awake again -
+        # Fractions (each family exact on its own)
+        coros = [{'yields': [['D', crng.choice(['1', '2', '1.5'])]]
+                  + ['N'] * 6 + [['F', crng.choice([1, 3, 5]), 2]] + ['N'] * 2,
+                  'ret': None} for _ in range(crng.randint(1, 3))]
+        ops = [['start', c] for c in range(len(coros))]
+        ops += [['frame', ['D', '1']]] * 5
+        ops += [['frame', ['F', 1, 2]]] * 12
+        return {'format': 1, 'engine': 'coro',
+                'config': {'in_world': False, 'coros': coros,
+                           'family_switch': True},
+                'ops': ops, 'scripts': {}}
     cfg = {'in_world': crng.random() < .33, 'coros': coros}
     life = prop == 'C09'
     if life and nc >= 2 and crng.random() < .1:
